@@ -79,6 +79,8 @@ pub enum Fault {
     LOverlong,
     // delta file i of the needed range
     DHash(u8),
+    /// delta file altered in transit (one more object), listed hash is the honest file's
+    DTamper(u8),
     DMalformed(u8),
     DSession(u8),
     DSerial(u8),
@@ -90,6 +92,8 @@ pub enum Fault {
     DWithdrawMissing(u8),
     // snapshot file
     SHash,
+    /// snapshot file altered in transit (one more object), listed hash is the honest file's
+    STamper,
     SMalformed,
     SSession,
     SSerial,
@@ -117,6 +121,7 @@ impl Fault {
             LHashMut(_) => "LHashMut",
             LOverlong => "LOverlong",
             DHash(_) => "DHash",
+            DTamper(_) => "DTamper",
             DMalformed(_) => "DMalformed",
             DSession(_) => "DSession",
             DSerial(_) => "DSerial",
@@ -127,6 +132,7 @@ impl Fault {
             DPubExisting(_) => "DPubExisting",
             DWithdrawMissing(_) => "DWithdrawMissing",
             SHash => "SHash",
+            STamper => "STamper",
             SMalformed => "SMalformed",
             SSession => "SSession",
             SSerial => "SSerial",
@@ -208,7 +214,8 @@ fn fault_strategy() -> impl Strategy<Value = Fault> {
         i().prop_map(LHashMut),
         Just(LOverlong),
         i().prop_map(DHash),
-        i().prop_map(DHash),
+        i().prop_map(DTamper),
+        i().prop_map(DTamper),
         i().prop_map(DMalformed),
         i().prop_map(DSession),
         i().prop_map(DSerial),
@@ -219,6 +226,7 @@ fn fault_strategy() -> impl Strategy<Value = Fault> {
         i().prop_map(DPubExisting),
         i().prop_map(DWithdrawMissing),
         Just(SHash),
+        Just(STamper),
         Just(SMalformed),
         Just(SSession),
         Just(SSerial),
@@ -319,6 +327,21 @@ fn apply_op(server: &mut RrdpServer, op: &Op) {
     }
 }
 
+const FOREIGN: &str = "rsync://rv.rpki.test/repo/foreign.roa";
+
+/// The elements plus one object the server never published (what a file from elsewhere would bring).
+fn foreign_els(els: &[DeltaEl]) -> Vec<DeltaEl> {
+    let mut v = els.to_vec();
+    v.push(DeltaEl::Publish { uri: FOREIGN.into(), data: Bytes::from_static(b"not from this server") });
+    v
+}
+
+fn foreign_objects(objects: &BTreeMap<String, Bytes>) -> BTreeMap<String, Bytes> {
+    let mut o = objects.clone();
+    o.insert(FOREIGN.into(), Bytes::from_static(b"not from this server"));
+    o
+}
+
 fn delta_uri_of(el: &DeltaEl) -> &str {
     match el {
         DeltaEl::Publish { uri, .. } | DeltaEl::Update { uri, .. } | DeltaEl::Withdraw { uri, .. } => uri,
@@ -373,6 +396,8 @@ fn prop_with(case: &Case, info: &mut CaseInfo, exclude_known: bool) -> Verdict {
     let mut local: Option<Local> = None;
     let mut versions: Vec<Version> = Vec::new();
     let mut dirty = false;
+    // serials (of the current session) whose delta the server rewrote in place since the client's last good update
+    let mut rewritten: Vec<u64> = Vec::new();
     let mut n_fetch = 0usize;
     let mut delta_path_updates = 0usize;
     let mut faults_seen = 0usize;
@@ -383,6 +408,14 @@ fn prop_with(case: &Case, info: &mut CaseInfo, exclude_known: bool) -> Verdict {
     for step in &case.steps {
         let faults = match step {
             Step::Server(op) => {
+                if matches!(op, Op::Rewrite { .. }) {
+                    if let Some(d) = server.deltas.back() {
+                        rewritten.push(d.serial);
+                    }
+                }
+                if matches!(op, Op::NewSession) {
+                    rewritten.clear();
+                }
                 apply_op(&mut server, op);
                 continue;
             }
@@ -413,6 +446,7 @@ fn prop_with(case: &Case, info: &mut CaseInfo, exclude_known: bool) -> Verdict {
         let mut truth = server.objects.clone();
         let mut notif_override: Option<Resp> = None;
         let mut snapshot_override: Option<Resp> = None;
+        let mut snapshot_semantic = false;
         let mut applied: Vec<&'static str> = Vec::new();
         // serials the client needs if it follows deltas
         let needed: Vec<u64> = match &local {
@@ -517,7 +551,7 @@ fn prop_with(case: &Case, info: &mut CaseInfo, exclude_known: bool) -> Verdict {
                 }
                 LDup(i) => {
                     let Some(s) = pick(*i, &list) else { continue };
-                    let e = list.iter().find(|x| x.0 == s).cloned().unwrap();
+                    let Some(e) = list.iter().find(|x| x.0 == s).cloned() else { continue };
                     list.push(e);
                     list_changed = true;
                 }
@@ -545,7 +579,7 @@ fn prop_with(case: &Case, info: &mut CaseInfo, exclude_known: bool) -> Verdict {
                     }
                     list_changed = true;
                 }
-                DHash(i) | DMalformed(i) | DSession(i) | DSerial(i) | D404(i) | D500(i) | DDrop(i) | DRepeat(i) | DPubExisting(i) | DWithdrawMissing(i) => {
+                DHash(i) | DTamper(i) | DMalformed(i) | DSession(i) | DSerial(i) | D404(i) | D500(i) | DDrop(i) | DRepeat(i) | DPubExisting(i) | DWithdrawMissing(i) => {
                     let Some(s) = pick(*i, &list) else { continue };
                     let Some(rec) = delta_rec(s) else { continue };
                     let honest = render_delta(&server.session, s, &rec.els);
@@ -557,6 +591,9 @@ fn prop_with(case: &Case, info: &mut CaseInfo, exclude_known: bool) -> Verdict {
                             b.extend_from_slice(b"<!-- not what was listed -->\n");
                             srv.set(HOST, &path, Resp::ok(b));
                         }
+                        DTamper(_) => {
+                            srv.set(HOST, &path, Resp::ok(render_delta(&server.session, s, &foreign_els(&rec.els))));
+                        }
                         DMalformed(_) => {
                             let mut b = honest[..honest.len() * 3 / 4].to_vec();
                             b.extend_from_slice(b"<oops");
@@ -564,12 +601,12 @@ fn prop_with(case: &Case, info: &mut CaseInfo, exclude_known: bool) -> Verdict {
                             srv.set(HOST, &path, Resp::ok(b));
                         }
                         DSession(_) => {
-                            let b = render_delta(&session_uuid(case.seed ^ 0xdead, 99), s, &rec.els);
+                            let b = render_delta(&session_uuid(case.seed ^ 0xdead, 99), s, &foreign_els(&rec.els));
                             relist = Some(b.clone());
                             srv.set(HOST, &path, Resp::ok(b));
                         }
                         DSerial(_) => {
-                            let b = render_delta(&server.session, s + 1, &rec.els);
+                            let b = render_delta(&server.session, s + 1, &foreign_els(&rec.els));
                             relist = Some(b.clone());
                             srv.set(HOST, &path, Resp::ok(b));
                         }
@@ -615,7 +652,12 @@ fn prop_with(case: &Case, info: &mut CaseInfo, exclude_known: bool) -> Verdict {
                         list_changed = true;
                     }
                 }
-                SHash | SMalformed | SSession | SSerial | S404 | S500 | SDrop | SDup => {
+                SHash | STamper | SMalformed | SSession | SSerial | S404 | S500 | SDrop | SDup => {
+                    // one snapshot fault per fetch: the first one wins
+                    if snapshot_override.is_some() {
+                        continue;
+                    }
+                    snapshot_semantic = matches!(f, SSession | SSerial | SDup);
                     let honest = server.snapshot_xml();
                     snapshot_override = Some(match f {
                         SHash => {
@@ -623,13 +665,14 @@ fn prop_with(case: &Case, info: &mut CaseInfo, exclude_known: bool) -> Verdict {
                             b.extend_from_slice(b"<!-- not what was listed -->\n");
                             Resp::ok(b)
                         }
+                        STamper => Resp::ok(render_snapshot(&server.session, server.serial, &foreign_objects(&server.objects))),
                         SMalformed => {
                             let mut b = honest[..honest.len() * 3 / 4].to_vec();
                             b.extend_from_slice(b"<oops");
                             Resp::ok(b)
                         }
-                        SSession => Resp::ok(render_snapshot(&session_uuid(case.seed ^ 0xdead, 98), server.serial, &server.objects)),
-                        SSerial => Resp::ok(render_snapshot(&server.session, server.serial + 1, &server.objects)),
+                        SSession => Resp::ok(render_snapshot(&session_uuid(case.seed ^ 0xdead, 98), server.serial, &foreign_objects(&server.objects))),
+                        SSerial => Resp::ok(render_snapshot(&server.session, server.serial + 1, &foreign_objects(&server.objects))),
                         S404 => Resp::status(404),
                         S500 => Resp::status(500),
                         SDrop => Resp::ok(honest.clone()).drop_after(honest.len() / 2),
@@ -651,7 +694,7 @@ fn prop_with(case: &Case, info: &mut CaseInfo, exclude_known: bool) -> Verdict {
         // semantic check can notice.
         let mut snapshot_hash = sha256_hex(&server.snapshot_xml());
         if let Some(r) = &snapshot_override {
-            if faults.iter().any(|f| matches!(f, Fault::SSession | Fault::SSerial | Fault::SDup)) && r.status == 200 {
+            if snapshot_semantic && r.status == 200 {
                 snapshot_hash = sha256_hex(&r.body);
                 list_changed = true;
             }
@@ -673,6 +716,7 @@ fn prop_with(case: &Case, info: &mut CaseInfo, exclude_known: bool) -> Verdict {
         // --- the client update
         let _ = srv.take_log();
         let before = archive_objects(&config, &notify);
+        let recorded: Vec<u64> = archive_state(&config, &notify).ok().flatten().map(|st| st.delta_state.keys().copied().collect()).unwrap_or_default();
         let run = collector.start();
         let res = run.repository(&ca);
         let log = srv.take_log();
@@ -697,6 +741,12 @@ fn prop_with(case: &Case, info: &mut CaseInfo, exclude_known: bool) -> Verdict {
                         Err(e) => return fail("C25/updated-but-archive-unreadable".into(), format!("fetch {}: {}", n_fetch, e)),
                     };
                     if after != want {
+                        // A rewritten delta the client had already applied can only be noticed if the served list still
+                        // names that serial and the client recorded its hash at its last update; otherwise no client can tell.
+                        let undetectable = local.as_ref().map(|l| l.session == n_sess && rewritten.iter().any(|k| *k <= l.serial && !(list.iter().any(|e| e.0 == *k) && recorded.contains(k)))).unwrap_or(false);
+                        if undetectable {
+                            return Outcome { verdict: Some(Verdict::Dropped("rewritten_delta_not_detectable".into())) };
+                        }
                         let unchanged = before.as_ref().ok().and_then(|b| b.as_ref()).map(|b| *b == after).unwrap_or(false);
                         let gap = local.as_ref().map(|l| l.session == n_sess && gap_in_needed(&list, l.serial + 1, n_serial)).unwrap_or(false);
                         let key = if dirty && unchanged && !snap_req {
@@ -742,6 +792,7 @@ fn prop_with(case: &Case, info: &mut CaseInfo, exclude_known: bool) -> Verdict {
                     }
                     local = Some(Local { session: n_sess, serial: n_serial, objects: want });
                     dirty = false;
+                    rewritten.clear();
                 }
                 Ok(Some(_)) => return fail("C25/non-rrdp-repository".into(), "rsync is disabled, yet a non-RRDP repository was returned".into()),
                 Ok(None) => {
@@ -824,7 +875,7 @@ fn directed_reuse() -> Case {
 }
 
 pub fn run(ctx: &Ctx, rep: &mut Report, replay: Option<&serde_json::Value>) {
-    rep.rule("stateful: RRDP publisher model over 6 URIs x 3 contents driven by generated ops (put/delete/multi-change delta, new session, serial jump, delta list trimmed, newest delta rewritten in place); 2-8 client updates per case through routinator's collector (Collector::start -> Run::repository) against the in-harness HTTPS server, each with 0-2 faults out of 31 kinds (notification 404/500/drop/malformed/304/stale/other origin; delta list truncated at either end/gapped/duplicated/hash-mutated/over-long; delta file wrong hash/malformed/wrong session/wrong serial/404/500/drop mid-body/object repeated/publish-of-existing/withdraw-of-missing; snapshot wrong hash/malformed/wrong session/wrong serial/404/500/drop/duplicate object), small rrdp-max-delta-count / rrdp-max-delta-list-len, local cache carried over; oracle: repository handed out => archive == server object set at the notified session+serial (304: the local state's) byte for byte, recorded state names it, load_object agrees; non-trivial = at least one successful delta-path update and at least one applied fault in the history; distinct by serialised case");
+    rep.rule("stateful: RRDP publisher model over 6 URIs x 3 contents driven by generated ops (put/delete/multi-change delta, new session, serial jump, delta list trimmed, newest delta rewritten in place); 2-8 client updates per case through routinator's collector (Collector::start -> Run::repository) against the in-harness HTTPS server, each with 0-2 faults out of 33 kinds (notification 404/500/drop/malformed/304/stale/other origin; delta list truncated at either end/gapped/duplicated/hash-mutated/over-long; delta file wrong hash/altered content/malformed/foreign session/foreign serial/404/500/drop mid-body/object repeated/publish-of-existing/withdraw-of-missing; snapshot wrong hash/altered content/malformed/foreign session/foreign serial/404/500/drop/duplicate object), small rrdp-max-delta-count / rrdp-max-delta-list-len, local cache carried over; oracle: repository handed out => archive == server object set at the notified session+serial (304: the local state's) byte for byte, recorded state names it, load_object agrees; non-trivial = at least one successful delta-path update and at least one applied fault in the history; distinct by serialised case");
     rep.assume("the publisher model (httpsrv::RrdpServer) renders RFC 8182 files as rpki::rrdp parses them; 'not updated' is observed as Run::repository == Ok(None) with rsync disabled; a semantic fault inside a delta/snapshot file is listed with the faulty file's own hash so that only routinator's semantic checks can notice it");
     ctx.shrink_iters.store(300, std::sync::atomic::Ordering::Relaxed);
     if let Some(v) = replay {
@@ -836,7 +887,7 @@ pub fn run(ctx: &Ctx, rep: &mut Report, replay: Option<&serde_json::Value>) {
     run_case(ctx, rep, "directed-gap", &directed_gap(), prop_all);
     run_case(ctx, rep, "directed-reuse", &directed_reuse(), prop_all);
     run_case(ctx, rep, "directed-304", &directed_304(), prop_all);
-    run_prop_par(ctx, rep, "histories", ctx.tier.pick(240, 6000), 8, || case_strategy(ctx.tier.pick(22, 30)), prop);
+    run_prop_par(ctx, rep, "histories", ctx.tier.pick(600, 8000), 8, || case_strategy(ctx.tier.pick(22, 30)), prop);
     let g = EXCLUDED_GAP.load(Ordering::Relaxed);
     if g > 0 {
         *rep.excluded_known.entry(KEY_GAP.into()).or_default() += g;
